@@ -29,6 +29,10 @@ def handleLine (st : DState) (line : String) : DState × String :=
       match handleSelect fs with
       | some a => (st, id ++ " " ++ a)
       | none => (st, id ++ " bad-case")
+    else if cmd == "maxmask" then
+      match handleMaxMask fs with
+      | some a => (st, id ++ " " ++ a)
+      | none => (st, id ++ " bad-case")
     else if cmd == "pemem" then
       match handlePeMem fs with
       | some a => (st, id ++ " " ++ a)
